@@ -252,7 +252,14 @@ def _tofrac(o):
         if f != 0.0 and abs(f) < TINY_GUARD:
             TINY_SEEN.append(f)
             return Fraction(0)     # denormal-range guards such as "+ 1e-50" are treated as 0 (stated assumption)
-        return Fraction(repr(f))
+        fr = Fraction(repr(f))
+        if fr.denominator > 10 ** 6:
+            # a float that is within 1e-12 (relative) of a rational with a small denominator denotes that rational:
+            # absorbs the round-off of concrete float arithmetic done by real numpy before the engine sees the value
+            cand = Fraction(f).limit_denominator(10 ** 6)
+            if abs(cand - fr) * 10 ** 12 <= abs(fr):
+                fr = cand
+        return fr
     if isinstance(o, (complex, np.complexfloating)):
         if o.imag == 0:
             return Fraction(repr(float(o.real)))
